@@ -239,7 +239,7 @@ impl VTree {
 //%% extract src/repr/vtree.rs :: impl VTree :: fn right_linear
 //%% @ret r
 //%% @rewrite 1 /\[x\] => BTree::Leaf\(\*x\),/ => _ if order.len() == 1 => { let x = &order[0]; BTree::Leaf(*x) }
-//%% @rewrite 1 /\[cur, rest @ \.\.\] => \{/ => _ if order.len() >= 2 => { let cur = &order[0]; let rest = vstd::slice::slice_subrange(order, 1, order.len());
+//%% @rewrite 1 /\[(\w+), rest @ \.\.\] => \{/ => _ if order.len() >= 2 => { let \1 = &order[0]; let rest = vstd::slice::slice_subrange(order, 1, order.len());
 //%% @rewrite 1 /\[\] => panic!\("invalid right_linear on empty list"\),/ => _ => vstd::pervasive::unreached(),
 //%% @spec
         requires order@.len() >= 1,
@@ -252,7 +252,7 @@ impl VTree {
 //%% extract src/repr/vtree.rs :: impl VTree :: fn left_linear
 //%% @ret r
 //%% @rewrite 1 /\[x\] => BTree::Leaf\(\*x\),/ => _ if order.len() == 1 => { let x = &order[0]; BTree::Leaf(*x) }
-//%% @rewrite 1 /\[rest @ \.\., last\] => \{/ => _ if order.len() >= 2 => { let last = &order[order.len() - 1]; let rest = vstd::slice::slice_subrange(order, 0, order.len() - 1);
+//%% @rewrite 1 /\[rest @ \.\., (\w+)\] => \{/ => _ if order.len() >= 2 => { let \1 = &order[order.len() - 1]; let rest = vstd::slice::slice_subrange(order, 0, order.len() - 1);
 //%% @rewrite 1 /\[\] => panic!\("invalid left_linear on empty list"\),/ => _ => vstd::pervasive::unreached(),
 //%% @spec
         requires order@.len() >= 1,
